@@ -573,6 +573,17 @@ func (en *DefaultEngine) Flush(ctx context.Context, w io.Writer) (int, error) {
 	logg.TraceCtxf(ctx, "render with state", "state", en.st)
 	r, err := en.vm.Render(ctx)
 	if err != nil {
+		r = ""
+	}
+	if len(en.exit) > 0 && en.cfg.OutputSize > 0 && uint32(len(r)+len(en.exit)) > en.cfg.OutputSize {
+		// the exit value is part of what the client receives: same limit as any other page
+		if en.exiting {
+			en.reset(ctx)
+			en.exiting = false
+		}
+		return 0, fmt.Errorf("final output of %v bytes exceeds output size %v", len(r)+len(en.exit), en.cfg.OutputSize)
+	}
+	if err != nil {
 		if len(en.exit) == 0 {
 			return 0, err
 		}
